@@ -24,7 +24,7 @@ def _pm(f: FuncInfo) -> t.Dict[str, str]:
 
 
 def rule_c11_r1(model: Model) -> RuleResult:
-    r = RuleResult('C11-R1', 'union members reach the member loop in declaration order, one converter per member', floor=3)
+    r = RuleResult('C11-R1', 'union members reach the member loop in declaration order, one converter per member', floor=4)
     # (a) make_converter Union arm passes get_args(ty) unchanged
     mk = model.func('pane.convert.make_converter')
     cfg = cfg_of(model, mk)
@@ -71,6 +71,39 @@ def rule_c11_r1(model: Model) -> RuleResult:
             r.fail(init.qualname, f"self.converters = {form[:120]}", init.loc(n.ast),
                    "the member converters are not the one-to-one, order-preserving image of the declared members "
                    "(members reordered, filtered, collapsed or de-duplicated): the left-most accepting member no longer decides")
+    # (d) type-variable substitution rebuilds a union from its members in declaration order, keeping the first of duplicates
+    rt = model.func('pane.util.replace_typevars')
+    rcfg = cfg_of(model, rt)
+    rnz = Normalizer(model, rt, rcfg, param_map=_pm(rt))
+    r.analysed.add(rt.qualname)
+    allowed = {'tuple', 'list', 'PHI', 'GEN', 'LIST', 'dict.fromkeys', 'pane.util.flatten_union_args', 'pane.util.replace_typevars', 'ELEM',
+               'typing.get_args', 'next', 'iter', 'typing.get_origin', 'TRUTHY', 'type', 'DICT', 'KEY', 'VALUE', 'itertools.chain',
+               'itertools.chain.from_iterable', 'typing.cast'}
+    allowed_methods = {'keys', 'get'}
+    n_union = 0
+    for n in rcfg.live_nodes():
+        if n.kind != 'return' or n.ast is None or n.ast.value is None:
+            continue
+        form = rnz.expr(n.ast.value, n)
+        if 'flatten_union_args' not in form and 'typing.Union' not in form:
+            continue
+        n_union += 1
+        r.instances += 1
+        heads = set(re.findall(r'(?<![\w.$)\]])([A-Za-z_][\w.]*)\(', form))
+        meths = set(re.findall(r'[)\]]\.(\w+)\(', form)) | {h.rsplit('.', 1)[1] for h in heads if h.startswith('$')}
+        bad = sorted(h for h in heads if h not in allowed and not h.startswith('$')) + sorted(m_ for m_ in meths if m_ not in allowed_methods)
+        filtered = ' if ' in form
+        r.sample({'rebuilt union members': form[:160]})
+        if bad or filtered:
+            what = (f"members pass through {bad}" if bad else 'members are filtered')
+            r.fail(rt.qualname, what, rt.loc(n.ast),
+                   "substituting type variables rebuilds the union with its members reordered, or de-duplicated other than by keeping the "
+                   "first occurrence (only tuple / list / dict.fromkeys / flatten_union_args keep the declared left-to-right order): "
+                   "another member accepts first, e.g. Union[T, float, int][int] converts 3 to 3.0")
+        else:
+            r.ok()
+    if n_union == 0:
+        raise AnalysisError(f"{rt.loc()}: replace_typevars: no return that rebuilds a union found")
     # (c) flatten_union_args preserves order
     fl = model.func('pane.util.flatten_union_args')
     r.instances += 1
